@@ -7,7 +7,7 @@
 (* rest of the trace is still examined.  The trace is accepted iff no      *)
 (* MISMATCH line was printed and every line was consumed (postcondition).  *)
 (***************************************************************************)
-EXTENDS Kernels, Json, IOUtils, TLC
+EXTENDS UintText, Json, IOUtils, TLC
 
 Rec == ndJsonDeserialize(IOEnv.TRACE)
 
@@ -21,6 +21,7 @@ Check(e) ==
          [] e.g = "bytes" -> CheckBytes(e)
          [] e.g = "math"  -> CheckMath(e)
          [] e.g = "kern"  -> CheckKern(e)
+         [] e.g = "text"  -> CheckText(e)
          [] OTHER -> [unknown_group |-> FALSE]
 
 Fails(c) == {f \in DOMAIN c : ~c[f]}
